@@ -585,6 +585,7 @@ GuardsObs(st, e) ==
      G("instances_of_closed_scopes_unreachable", {"C14"}, \A i \in Range(e.alive_insts) \cap InstIds(st) :
           IF st.inst[i].owner = "prov" THEN st.phase = "built"
           ELSE (st.inst[i].owner \in ScopeNames(st) /\ st.scopes[st.inst[i].owner].open), NONE),
+     G("refused_creation_leaves_nothing", {"C14"}, \A i \in DOMAIN e.orphans : e.orphans[i] = "canceled", NONE),
      G("closed_scope_context_cancelled", {"C14"}, \A s \in (ScopeNames(st) \ {"root"}) \cap DOMAIN e.ctx :
           ~st.scopes[s].open => e.ctx[s] = "canceled", NONE)}
 
